@@ -330,6 +330,14 @@ def load_known_findings():
 
 
 def write_evidence(pid, tier, seed, coverage, wall, violations, assumptions, level="model_checking"):
+    if os.path.realpath(REPO) != "/repo":      # a scratch tree is under test (VERIF_REPO): keep /verif/evidence for /repo itself
+        d = os.path.join(VERIF, ".scratch", "evidence_other_tree")
+        os.makedirs(d, exist_ok=True)
+        ev = {"property_id": pid, "tier": tier, "seed": int(seed), "level": level, "coverage": coverage,
+              "assumptions": assumptions, "wall_s": round(wall, 2), "violations": int(violations), "tree": REPO}
+        with open(os.path.join(d, pid + ".json"), "w") as f:
+            json.dump(ev, f, indent=1, default=str)
+        return ev
     os.makedirs(os.path.join(VERIF, "evidence"), exist_ok=True)
     ev = {"property_id": pid, "tier": tier, "seed": int(seed), "level": level, "coverage": coverage,
           "assumptions": assumptions, "wall_s": round(wall, 2), "violations": int(violations)}
